@@ -22,6 +22,10 @@ func (ssc *StatefulSetController) VerifProcessNext() bool { return ssc.processNe
 // VerifQueue exposes the work queue.
 func (ssc *StatefulSetController) VerifQueue() workqueue.RateLimitingInterface { return ssc.queue }
 
+// VerifSetQueue replaces the work queue (the harness uses one with a short backoff to drive long runs of
+// failing reconciles in bounded time).
+func (ssc *StatefulSetController) VerifSetQueue(q workqueue.RateLimitingInterface) { ssc.queue = q }
+
 // VerifAddPod, VerifUpdatePod, VerifDeletePod and VerifEnqueue expose the informer event handlers.
 func (ssc *StatefulSetController) VerifAddPod(obj interface{})         { ssc.addPod(obj) }
 func (ssc *StatefulSetController) VerifUpdatePod(old, cur interface{}) { ssc.updatePod(old, cur) }
